@@ -10,7 +10,10 @@ use futures::channel::oneshot;
 use futures::task;
 
 use std::mem;
+#[cfg(not(logicalshift_desync_verif))]
 use std::sync::*;
+#[cfg(logicalshift_desync_verif)]
+use desync_verif_rt::sync::*;
 use std::pin::{Pin};
 
 ///
